@@ -183,7 +183,7 @@ def check_response(method, ver, inm, prog, wire, closed):
            "x {HTTP/1.0, HTTP/1.0 keep-alive, HTTP/1.1}; followed by a pipelined GET",
            "chunk contents concrete (prefixes of 'abcdefgh...'); sizes, Content-Length values, op kinds "
            "and status index are solver variables (realised by forking where C code needs them)"],
-    outside=["output transforms (C29)", "cookies (C25)", "header injection (C07)",
+    outside=["output transforms (decided in C29, incl. HEAD-vs-GET header equality under compression)", "cookies (C25)", "header injection (C07)",
              "programs longer than N ops", "status codes outside {200,204,304,404}",
              "explicit Content-Length contradicting the body on HEAD/204/304 (either outcome accepted)",
              "real sockets / partial writes (C12)"],
